@@ -647,10 +647,25 @@ def spec_ite(eng, args, kwargs, st):
     yield eng.merge_val(c, a, b), st
 
 
+class LemmaInstanceDiscarded(Exception):
+    pass
+
+
 def clause(kind):
     def f(eng, args, kwargs, st):
         label = kwargs.get('label')
         props = kwargs.get('props')
+        if eng.lemma_mode and eng.concrete:
+            for i, a in enumerate(args):
+                c = to_bool(a)
+                c = concrete(c) if is_z3(c) else c
+                if kind == 'requires':
+                    if c is not True:
+                        raise LemmaInstanceDiscarded()
+                else:
+                    eng.instance_results.append((label or 'e', c))
+            yield None, st
+            return
         if eng.lemma_mode:
             for i, a in enumerate(args):
                 if kind == 'requires':
@@ -780,6 +795,10 @@ def _native_key():
 
 _native_key()
 
+import math as _math
+NATIVE_UF['rnd4'] = lambda x: round(float(x), 4)
+NATIVE_UF['log2'] = lambda x: _math.log2(float(x)) if float(x) > 0 else 0.0
+
 
 def uninterpreted(name, arg_kinds, res_kind):
     key = (name, tuple(arg_kinds), res_kind)
@@ -855,6 +874,9 @@ def spec_mm(eng, args, kwargs, st):
 
 def _mm_axiom(name):
     def f(eng, args, kwargs, st):
+        if eng.concrete:
+            yield None, st
+            return
         eng.trusted_facts.add('maximum-matching fact mm_%s (mathematical property of maximum bipartite matchings, trusted, not machine-checked)' % name)
         MM = _mm_fn()
         if name == 'bounds':
@@ -932,6 +954,9 @@ def spec_floor(eng, args, kwargs, st):
 
 def spec_assert_step(eng, args, kwargs, st):
     """assert_step(cond): an intermediate fact, proved as its own obligation and then available to the clauses that follow"""
+    if eng.concrete:
+        yield None, st
+        return
     cond = to_z3(to_bool(args[0]))
     label = kwargs.get('label', 'step')
     if eng.lemma_mode:
